@@ -771,13 +771,18 @@ void varintBitmapAddRange(varintBitmap *vb, uint16_t min, uint16_t max) {
 
     uint32_t rangeSize = max - min;
 
-    /* For large ranges, use runs container */
-    if (rangeSize > VARINT_BITMAP_ARRAY_MAX) {
+    /* For large ranges, use runs container.  Only an empty set may be
+     * replaced by the single run: otherwise the members already present
+     * would be discarded, so they are kept and the range is added
+     * element by element below. */
+    if (rangeSize > VARINT_BITMAP_ARRAY_MAX && vb->cardinality == 0) {
         /* Convert to runs if beneficial */
         if (vb->type == VARINT_BITMAP_ARRAY) {
             free(vb->container.array.values);
         } else if (vb->type == VARINT_BITMAP_BITMAP) {
             free(vb->container.bitmap.bits);
+        } else {
+            free(vb->container.runs.runs);
         }
 
         vb->type = VARINT_BITMAP_RUNS;
